@@ -11,8 +11,6 @@ import (
 	"strconv"
 	"strings"
 	"time"
-
-	"golang.org/x/tools/go/ssa"
 )
 
 // propDef: which functions a property's check verifies.
@@ -21,6 +19,8 @@ type propDef struct {
 	Sweep       []string `json:"sweep"`        // regexps over display keys: zero-annotation safety sweep (C08-style)
 	SweepExcept []string `json:"sweep_except"` // regexps excluded from the sweep
 	Special     []string `json:"special"`      // special analyses: "next-skeleton", "effects", "frames"
+	SweepList   string   `json:"sweep_list"`   // file (relative to /verif) listing the functions of the pinned sweep
+	ScopeFiles  []string `json:"scope_files"`  // source files whose functions are in scope (for not_under_contract)
 	MinObligs   int      `json:"min_obligations"`
 	Note        string   `json:"note"`
 }
@@ -121,8 +121,8 @@ func cmdCheck(args []string) int {
 	rep.loadKnown()
 
 	// 1. functions under contract for this property
-	var targets []*ssa.Function
-	sweepSet := map[*ssa.Function]bool{}
+	var targets []string
+	sweepSet := map[string]bool{}
 	var keys []string
 	for k := range e.funcs {
 		keys = append(keys, k)
@@ -139,6 +139,23 @@ func cmdCheck(args []string) int {
 	for _, s := range pd.SweepExcept {
 		exceptRe = append(exceptRe, regexp.MustCompile("^(?:"+s+")$"))
 	}
+	listed := map[string]bool{}
+	if pd.SweepList != "" {
+		data, err := os.ReadFile(filepath.Join(verif, pd.SweepList))
+		if err != nil {
+			fmt.Fprintln(os.Stderr, "sweep list:", err)
+			return 2
+		}
+		for _, ln := range strings.Split(string(data), "\n") {
+			f := strings.Fields(ln)
+			if len(f) >= 1 {
+				listed[f[0]] = true
+				if e.funcs[f[0]] == nil {
+					rep.undecided = append(rep.undecided, f[0]+": function not found (renamed or removed)")
+				}
+			}
+		}
+	}
 	for _, k := range keys {
 		fn := e.funcs[k]
 		if onlyRe != nil && !onlyRe.MatchString(k) {
@@ -148,10 +165,14 @@ func cmdCheck(args []string) int {
 			continue
 		}
 		tagged := false
-		if con := e.contractFor(fn); con != nil && !con.Trusted && contractTagged(con, id) {
+		con := e.contractFor(fn)
+		if sp := e.special[k]; sp != nil {
+			con = sp.con
+		}
+		if con != nil && !con.Trusted && contractTagged(con, id) {
 			tagged = true
 		}
-		swept := false
+		swept := listed[k]
 		for _, re := range sweepRe {
 			if re.MatchString(k) {
 				swept = true
@@ -163,9 +184,25 @@ func cmdCheck(args []string) int {
 			}
 		}
 		if tagged || swept {
-			targets = append(targets, fn)
+			targets = append(targets, k)
 			if swept {
-				sweepSet[fn] = true
+				sweepSet[k] = true
+			}
+		}
+	}
+	if len(pd.ScopeFiles) > 0 {
+		inScope := map[string]bool{}
+		for _, f := range pd.ScopeFiles {
+			inScope[f] = true
+		}
+		tset := map[string]bool{}
+		for _, k := range targets {
+			tset[k] = true
+		}
+		for _, k := range keys {
+			fn := e.funcs[k]
+			if len(fn.Blocks) > 0 && inScope[e.relFile(fn)] && !tset[k] {
+				rep.notUnder = append(rep.notUnder, k)
 			}
 		}
 	}
@@ -180,21 +217,21 @@ func cmdCheck(args []string) int {
 	}
 	// 2. verify
 	type job struct {
-		fn  *ssa.Function
+		key string
 		res *fnResult
 	}
 	jobs := make([]*job, len(targets))
 	sem := make(chan struct{}, 4)
 	done := make(chan struct{})
-	for i, fn := range targets {
-		jobs[i] = &job{fn: fn}
+	for i, k := range targets {
+		jobs[i] = &job{key: k}
 		go func(j *job) {
 			sem <- struct{}{}
 			defer func() { <-sem; done <- struct{}{} }()
 			// every safety and call-site obligation of a function verified for this property is
 			// a supporting obligation of the property (a failed one would make later ones vacuous)
-			opts := &fnOpts{houdini: true, props: []string{id}}
-			j.res = e.genFunc(j.fn, opts, cfg)
+			opts := &fnOpts{houdini: true, props: []string{id}, spec: e.special[j.key]}
+			j.res = e.genFunc(e.funcs[j.key], opts, cfg)
 		}(jobs[i])
 	}
 	for range targets {
@@ -294,6 +331,7 @@ type report struct {
 	wall         float64
 	engineErr    []string
 	selftest     map[string]any
+	notUnder     []string
 }
 
 func (r *report) loadKnown() {
@@ -355,7 +393,7 @@ func (r *report) verdicts() int {
 		fmt.Printf("UNDECIDED property=%s %s\n", r.id, u)
 	}
 	for _, cv := range r.covers {
-		if cv.Status != "sat" && cv.Status != "unknown" {
+		if cv.Status == "unsat" {
 			// a precondition that no input satisfies makes every obligation vacuous
 			fmt.Printf("ENGINE-ERROR: vacuous precondition: %s (%s)\n", cv.Name, cv.Status)
 			r.engineErr = append(r.engineErr, "vacuous precondition "+cv.Name)
